@@ -1620,7 +1620,7 @@ def r04_15(ctx):
                         bad = cond
         ctx.check(bad is None, R, key + '|%s at bb-order %d not conditioned on the turn' % (d.split('::')[-1], n), call_line(b, bi), 'guards: width test, Option states, subpath flags',
                   'a %s call in stroke_to_path is guarded by %s: the %s is left out for some vertices depending on their geometry, although the region it covers scales with the stroke width' % (d.split('::')[-1], fmt(b, bad) if bad else '', 'join' if 'join' in d else 'cap'))
-    ctx.floor(R, 'join/cap call sites in stroke_to_path', n, 8)
+    ctx.floor(R, 'join/cap call sites in stroke_to_path', n, 4)
 
 
 def r04_12(ctx):
